@@ -80,8 +80,15 @@ inductive AdaptRes
   | replaced (news : List Op)     -- nodes recorded on the tape, in order
   deriving DecidableEq, Repr
 
-/-- `dft_19_20` -/
+/-- `dft_19_20` (since 765f1d4: the opset-19 default `axis = 1` is materialised when the attribute is absent) -/
 def dft_19_20 : Op → AdaptRes
+  | .dft axis inv one hasLen _ rank =>
+    let a := axis.getD 1
+    .replaced [.const true [a], .dft none (some (inv.getD 0)) (some (one.getD 0)) hasLen (some a) rank]
+  | _ => .retNone
+
+/-- `dft_19_20` before 765f1d4 (kept for the regression theorem only): nothing was done without an `axis` attribute. -/
+def dft_19_20_prefix : Op → AdaptRes
   | .dft axis inv one hasLen _ rank =>
     match axis with
     | some a => .replaced [.const true [a], .dft none (some (inv.getD 0)) (some (one.getD 0)) hasLen (some a) rank]
@@ -100,14 +107,18 @@ def gridsample_19_20 : Op → AdaptRes
   | _ => .retNone
 
 /-- The nodes `groupnormalization_20_21` records when it rewrites (`k = int(num_channels / num_groups)`).
-The new node carries only `num_groups` (`epsilon` is not copied); the new scale/bias values have no
+The new node carries `num_groups` and (since 71fb858) `epsilon`; the new scale/bias values have no
 shape annotation. -/
 def gnReplacement (n : GN) (g : Nat) : List Op :=
   let k := n.c / g
   [.const false [-1, 1], .const false [-1], .const false [1, (k : Int)],
    .plain "Reshape", .plain "Expand", .plain "Reshape",
    .plain "Reshape", .plain "Expand", .plain "Reshape",
-   .groupNorm { n with eps := none, sLen := g * k, bLen := g * k, sVis := .missing, bVis := .missing }]
+   .groupNorm { n with sLen := g * k, bLen := g * k, sVis := .missing, bVis := .missing }]
+
+/-- The rewritten node before 71fb858 (kept for the regression theorem only): `epsilon` was not copied. -/
+def gnRewrittenPrefix (n : GN) (g : Nat) : Op :=
+  .groupNorm { n with eps := none, sLen := g * (n.c / g), bLen := g * (n.c / g), sVis := .missing, bVis := .missing }
 
 /-- `groupnormalization_20_21` (order of the tests as in the source) -/
 def groupnormalization_20_21 : Op → AdaptRes
